@@ -12,7 +12,7 @@ from vf.model_scipp import DTypeError, DimensionError, Var, Buf, DType, BOOL
 from vf.units import UnitError, NAMED, symbolic_unit
 
 MOD = 'absorption.cylinder'
-CATCH = (UnitError, DTypeError, DimensionError, ValueError, TypeError)
+CATCH = (Exception,)     # whatever the code under verification raises is a path end (engine signals are re-raised by explore before this applies)
 R = z3.Real
 ONE = NAMED['dimensionless']
 
